@@ -11,7 +11,9 @@ CONSTANTS
   SortShapes = {22, 13}
   ThreshShapes = {22, 31}
   ThreshVals = 3
+  ThreshNames = {"intensity", "labels"}
   FIXED = TRUE
+  TDFIXED = TRUE
 INVARIANT InBounds
 INVARIANT CooRowMajor
 INVARIANT RoundTrip
@@ -19,6 +21,7 @@ INVARIANT KernelReturn
 INVARIANT Defined
 INVARIANT IsSortedSpec
 INVARIANT SortTotal
+INVARIANT DenseTotal
 INVARIANT SortOK
 INVARIANT ThreshOK
 INVARIANT Emit
